@@ -183,12 +183,19 @@ impl std::io::Seek for FailOnce {
 /// `run_ops` with one transient fault at offset `at` after the decoder is open; a call that fails
 /// with the injected error is repeated and does not count: the successful calls must deliver what
 /// they deliver without the fault.  Returns (outputs, did the fault fire inside a call?)
-pub fn run_ops_faulty(file: &[u8], ops: &str, at: u64) -> (String, bool) {
+pub fn run_ops_faulty(file: &[u8], ops: &str, at: u64) -> (String, bool) { run_ops_unusual(file, ops, 0, at) }
+
+/// ... and with the file embedded behind `prefix` foreign bytes (`at` counted from the file's start; u64::MAX = no fault)
+pub fn run_ops_unusual(file: &[u8], ops: &str, prefix: usize, at: u64) -> (String, bool) {
     let armed = std::rc::Rc::new(std::cell::Cell::new(false));
     let fired = std::rc::Rc::new(std::cell::Cell::new(false));
     let (a2, f2) = (armed.clone(), fired.clone());
     let r = catch(move || {
-        let mut d = match WebPDecoder::new(FailOnce { inner: Cursor::new(file.to_vec()), at, armed: a2.clone(), fired: f2 }) {
+        let mut stream: Vec<u8> = (0..prefix).map(|i| (i * 13 + 1) as u8).collect();
+        stream.extend_from_slice(file);
+        let mut cur = Cursor::new(stream);
+        cur.set_position(prefix as u64);
+        let mut d = match WebPDecoder::new(FailOnce { inner: cur, at: at.saturating_add(prefix as u64), armed: a2.clone(), fired: f2 }) {
             Ok(d) => d,
             Err(e) => return format!("OPENERR:{e:?}"),
         };
@@ -300,6 +307,17 @@ pub fn run(o: &Opts) -> Report {
                     for d in [0usize, 8, 8 + 16, 8 + 16 + 8, 8 + 16 + (len.saturating_sub(16)) / 2, 8 + len.saturating_sub(1)] { offs.push((p + d) as u64); }
                 }
                 p += 8 + len + (len & 1);
+            }
+            // the animation embedded behind foreign bytes, with and without a fault
+            for (prefix, at) in [(41usize, u64::MAX), (7usize, offs.get((i as usize) % offs.len().max(1)).copied().unwrap_or(u64::MAX))] {
+                let (got, _) = run_ops_unusual(&g.file, &ops, prefix, at);
+                rep.case(&format!("animembedded prefix={prefix} at={at} {} {}", hex(&g.file), ops), true);
+                rep.hit("file_embedded_at_an_offset");
+                if got != clean {
+                    let (gi, ci): (Vec<&str>, Vec<&str>) = (got.split(' ').collect(), clean.split(' ').collect());
+                    let j = gi.iter().zip(ci.iter()).position(|(a, b)| a != b).unwrap_or(gi.len().min(ci.len()));
+                    rep.disagree(Disagreement { case: format!("animembedded prefix={prefix} at={at} {} {}", hex(&g.file), ops), got: gi.get(j).map(|s| short(s)).unwrap_or_default(), expected: ci.get(j).map(|s| short(s)).unwrap_or_default(), class: "violation", obligation: "C06: the k-th successful read_frame returns the k-th canvas of the fold - also when the file is read from a reader positioned at its first byte inside a larger stream".into(), detail: format!("{prefix} foreign bytes before the file; first differing successful call: #{j}; animation {}", g.shape()) });
+                }
             }
             for k in 0..4 {
                 if offs.is_empty() { break; }
